@@ -1042,7 +1042,11 @@ class SetOperation(Expression, Query):
         this = maybe_copy(self, copy)
         this.this.unnest().select(*expressions, append=append, dialect=dialect, copy=False, **opts)
         this.expression.unnest().select(
-            *expressions, append=append, dialect=dialect, copy=False, **opts
+            *(maybe_copy(e) if isinstance(e, Expr) else e for e in expressions),
+            append=append,
+            dialect=dialect,
+            copy=False,
+            **opts,
         )
         return this
 
